@@ -144,6 +144,13 @@ def plain_or_any_state(fmt):
     def f(case, toks, log, items):
         if case['fmt'] != fmt:
             return None
+        if any(oracles.strip_growth(t).startswith('E:bl') for t in toks):
+            # a buffer-limit error is part of the stream only if the policy refused a size the record needs: a refusal
+            # at a capacity the record being parsed fits into means records of the input are withheld
+            g = oracles.growth_oracle(case, toks, log, items)
+            if g.failures:
+                g.failures[0] = 'records withheld by a buffer-limit error: ' + g.failures[0]
+                return g
         return seek_any_state(case, toks, log, items) if ('f' in case['script'] or case['seekfails'] != '-' or
                                                            any(oracles.strip_growth(t).startswith(('E:io', 'E:bl')) for t in toks)) \
             else oracles.history_oracle(case, toks, items, positions=False, err_fields=False, sets=False)
@@ -686,7 +693,7 @@ for _k, _v in PROPS.items():
 # rewrite of, say, write_unchanged then trips C11 and C13 only
 RECORD_FIELDS = {
     'C01': set('hln'), 'C02': set('hsq'), 'C03': set('hlsqn'), 'C04': set('hlsq'), 'C05': set('hlsq'),
-    'C06': set('hlsq'), 'C09': set('h'), 'C10': set('hlowx'), 'C11': set('huwlsq'), 'C13': set('hlrnbosqidv'), 'C12': set('hlsqn'), 'C14': set('hlsq'),
+    'C06': set('hlsq'), 'C09': set('h'), 'C10': set('hlowx'), 'C11': set('huwlsq'), 'C13': set('hlrnbosqidvf'), 'C12': set('hlsqnf'), 'C14': set('hlsq'),
     'C17': set('h'), 'C18': set('h'),
 }
 
